@@ -308,7 +308,8 @@ class C05(Prop):
         for j, (seg, g) in enumerate(zip(segs, groups)):
             first_ind = ii if j == 0 else si
             hard_end = sep == "hard" and j < len(segs) - 1
-            devs = judge(seg, g, width, first_ind, si, fill=not sem)
+            # the first word after a hard break starts a line inside the paragraph: it may be escaped too
+            devs = judge(seg, g, width, first_ind, si, fill=not sem, first_line_escape=(sep == "hard" and j > 0))
             if hard_end and width > 0 and g:
                 # the trailing backslash of a hard break is part of the emitted line
                 last = g[-1]
